@@ -97,10 +97,10 @@ def build_case(case_seed, nbase, nprefix):
         m, feats = literal_array_module()
     else:
         m, feats = semgen.layout_module(rnd)
-    return build_case_model(m, feats, rnd, nbase, nprefix)
+    return build_case_model(m, feats, rnd, nbase, nprefix, aligned_fn=lambda r: r.choice([0, 0, 0, 0, 0, 2, 4, 8]))
 
 
-def build_case_model(m, feats, rnd, nbase, nprefix, buffer_plan=None):
+def build_case_model(m, feats, rnd, nbase, nprefix, buffer_plan=None, aligned_fn=None):
     """buffer_plan(struct) -> list of (base bytes, [prefix lengths]) overrides the default buffers."""
     text = semgen.module_text(m)
     r = emb.compile_files({"m.emb": text})
@@ -121,7 +121,11 @@ def build_case_model(m, feats, rnd, nbase, nprefix, buffer_plan=None):
                 group = (si, tuple(pv), base)
                 for n in lens:
                     b = base[:n]
-                    script.append("V %d %s %s" % (si, b.hex() or "-", " ".join(str(x) for x in pv)))
+                    al = aligned_fn(rnd) if aligned_fn else 0
+                    if al:
+                        script.append("A %d %d %s %s" % (si, al, b.hex() or "-", " ".join(str(x) for x in pv)))
+                    else:
+                        script.append("V %d %s %s" % (si, b.hex() or "-", " ".join(str(x) for x in pv)))
                     view = RI.StructView(I, s, dict(zip([p for p, _ in s.params], pv)), b)
                     out = []
                     RI.observe_struct(view, "v", out)
